@@ -485,3 +485,22 @@ Proof.
     repeat (destruct Hf as [Hf|Hf]; [subst c; destruct Hc as [Hc|Hc]; [apply Hc; reflexivity | discriminate]|]).
     exact Hf.
 Qed.
+
+(* ---- histories: a parse never depends on what was parsed before or on what callers did
+   with the values they were handed ---- *)
+Lemma run_hist_pure : forall (h : list hstep) (heap : list (option jid)),
+  run_hist heap h = map step_obs h.
+Proof.
+  induction h as [|st t IH]; intros heap; [reflexivity|].
+  simpl. destruct (hist_step heap st) as [heap' o] eqn:E.
+  rewrite IH. f_equal.
+  destruct st; simpl in E; inversion E; reflexivity.
+Qed.
+
+Lemma run_hist_last_parse : forall (pre1 pre2 : list hstep) (heap1 heap2 : list (option jid)) (s : str),
+  last (run_hist heap1 (pre1 ++ [HParse s])) OMut = OParse (new_jid s) /\
+  last (run_hist heap2 (pre2 ++ [HParse s])) OMut = OParse (new_jid s).
+Proof.
+  intros pre1 pre2 heap1 heap2 s. rewrite !run_hist_pure, !map_app. simpl.
+  rewrite !last_last. split; reflexivity.
+Qed.
